@@ -679,7 +679,7 @@ Proof.
 Qed.
 
 (* ================= nesting depth (the stack clause of C02 for relationship fields) ================= *)
-Transparent bump skip_ws error expect in_node out_of_fuel.
+Transparent bump skip_ws error expect in_node out_of_fuel version_text.
 
 Definition rdle (k : nat) (l : list rtree) : Prop := Forall (fun e => depth e <= k) l.
 
@@ -723,6 +723,11 @@ Proof.
 Qed.
 Lemma keeps_expect k kk : 1 <= k -> keeps k (expect kk).
 Proof. intros Hk s H. unfold expect. destruct (cur_is s kk); [apply keeps_bump|apply keeps_error]; assumption. Qed.
+Lemma keeps_version_text k : 1 <= k -> keeps k version_text.
+Proof.
+  intros Hk s H. unfold version_text. destruct (cur_is s IDENT); [|apply keeps_error; assumption].
+  destruct (cur_is (bump s) COLON); [apply keeps_expect; [exact Hk|]; apply keeps_bump, keeps_bump, H|apply keeps_bump, H].
+Qed.
 Lemma keeps_comp k f g : keeps k f -> keeps k g -> keeps k (fun s => g (f s)).
 Proof. intros Hf Hg s H. apply Hg, Hf, H. Qed.
 
@@ -793,7 +798,7 @@ Proof.
   assert (H3 : rdle 2 (out (rel_version (rel_after_name (expect IDENT s))))).
   { unfold rel_version. destruct (peek_is _ L_PARENS); [|exact H2]. cbv zeta.
     apply (keeps_in_node 2 1); [lia| |apply keeps_skip_ws; exact H2].
-    intros t Ht. cbv zeta. apply keeps_expect; [lia|]. apply keeps_expect; [lia|]. apply keeps_skip_ws.
+    intros t Ht. cbv zeta. apply keeps_expect; [lia|]. apply keeps_skip_ws. apply keeps_version_text; [lia|]. apply keeps_skip_ws.
     apply keeps_constraint_node; [lia|]. apply keeps_skip_ws, keeps_bump. exact Ht. }
   unfold rel_archs. destruct (peek_is _ L_BRACKET); [|exact H3]. cbv zeta.
   apply (keeps_in_node 2 1); [lia| |apply keeps_skip_ws; exact H3].
@@ -840,4 +845,4 @@ Proof.
   destruct (out (in_node ROOT body s0)) as [|x [|y l]] eqn:Eo; try discriminate.
   intros H. inversion H; subst. inversion Hk; assumption.
 Qed.
-Opaque bump skip_ws error expect in_node out_of_fuel.
+Opaque bump skip_ws error expect in_node out_of_fuel version_text.
